@@ -43,6 +43,7 @@ type Config struct {
 	Faults    int  // budget of link down/up and offline events
 	Depth     int
 	Filters   []string
+	Names     []int // node numbers (peer names 00:00:00:00:00:NN) of the brokers; default 1, 2, 3
 	Clients   int   // client connections per broker (default 1)
 	OnlyOn    []int // brokers that have clients (default: all)
 }
@@ -227,7 +228,11 @@ func newInst(cfg Config) *inst {
 			n.clients = append(n.clients, nil)
 			n.held = append(n.held, map[string]bool{})
 		}
-		n.env = brokerx.MustNew(brokerx.Options{Node: i + 1, KeepGossip: true})
+		node := i + 1
+		if i < len(cfg.Names) {
+			node = cfg.Names[i]
+		}
+		n.env = brokerx.MustNew(brokerx.Options{Node: node, KeepGossip: true})
 		n.name = n.env.Svc.VerifCluster().VerifName()
 		in.nodes = append(in.nodes, n)
 	}
@@ -892,6 +897,8 @@ func configs(quick bool) []Config {
 		{Name: "2-brokers-colliding", N: 2, ClientOps: 3, Ticks: 1, Depth: 9, Filters: []string{"a/b/", "b/a/"}},
 		colliding1,
 		{Name: "2-brokers-faults", N: 2, ClientOps: 2, Ticks: 1, Faults: 1, Depth: 8, Filters: []string{"a/"}},
+		// the same with a broker whose name ends in 0xff (the last byte of the state's key prefix at its boundary)
+		{Name: "2-brokers-faults-name-ff", N: 2, ClientOps: 2, Ticks: 1, Faults: 1, Depth: 8, Filters: []string{"a/"}, Names: []int{255, 1}},
 		{Name: "3-mesh", N: 3, ClientOps: 3, Ticks: 0, Depth: 8, Filters: []string{"a/"}},
 		{Name: "3-line", N: 3, Line: true, ClientOps: 3, Ticks: 1, Faults: 1, Depth: 8, Filters: []string{"a/"}},
 		{Name: "2-brokers-two-clients-faults", N: 2, ClientOps: 3, Ticks: 0, Faults: 1, Depth: 8, Filters: []string{"a/"}, Clients: 2, OnlyOn: []int{1}},
